@@ -936,7 +936,7 @@ func r09_2(c *Ctx) {
 			}
 			for _, rr := range *fa.Referrers() {
 				if st, ok := rr.(*ssa.Store); ok && st.Addr == ssa.Value(fa) {
-					if add, ok := isTimeCall(st.Val, "Add"); ok && add.Call.Args[0] == ssa.Value(now) {
+					if add, ok := isTimeCall(st.Val, "Add"); ok && carriesOnly(add.Call.Args[0], now) {
 						if _, ok := isFieldLoad(add.Call.Args[1], "ValidReplayer", "ttl"); ok {
 							stampOK = true
 						}
@@ -949,11 +949,18 @@ func r09_2(c *Ctx) {
 	// GC decision uses the same now
 	gcOK := true
 	nGC := 0
-	eachInstr(fn, func(in ssa.Instruction) {
-		for _, m := range []string{"(*ValidReplayer).shouldGC", "(*ValidReplayer).doGC"} {
-			if call, ok := isModCall(in, m); ok {
+	eachInstrDeep(fn, func(in ssa.Instruction) {
+		if call, ok := isModCall(in, "(*ValidReplayer).doGC"); ok {
+			nGC++
+			if !carriesOnly(call.Call.Args[1], now) {
+				gcOK = false
+			}
+		}
+		// the due test (now - lastGC), wherever it is written
+		if sub, ok := isStaticCall(in, "(time.Time).Sub"); ok {
+			if _, l := isFieldLoad(sub.Call.Args[1], "ValidReplayer", "lastGC"); l {
 				nGC++
-				if call.Call.Args[1] != ssa.Value(now) {
+				if !carriesOnly(sub.Call.Args[0], now) {
 					gcOK = false
 				}
 			}
@@ -2171,13 +2178,39 @@ func r18_6(c *Ctx) {
 			}
 		}
 	})
-	var gcCall, should *ssa.Call
-	eachInstr(fn, func(in ssa.Instruction) {
+	var gcCall *ssa.Call
+	eachInstrDeep(fn, func(in ssa.Instruction) {
 		if call, ok := isModCall(in, "(*ValidReplayer).doGC"); ok {
 			gcCall = call
 		}
-		if call, ok := isModCall(in, "(*ValidReplayer).shouldGC"); ok {
-			should = call
+	})
+	// the due test: now.Sub(v.lastGC) >= v.GCInterval (the predicate helper, if any, is inlined by the
+	// normalisation pre-pass, so the comparison is always found in Put's region)
+	isDue := func(v ssa.Value) bool {
+		b, ok := v.(*ssa.BinOp)
+		if !ok {
+			return false
+		}
+		x, y, op := b.X, b.Y, b.Op
+		if _, iv := isFieldLoad(x, "ValidReplayer", "GCInterval"); iv {
+			x, y, op = y, x, flipOp(op)
+		}
+		if op != token.GEQ {
+			return false
+		}
+		sub, ok := isTimeCall(x, "Sub")
+		if !ok {
+			return false
+		}
+		_, l := isFieldLoad(sub.Call.Args[1], "ValidReplayer", "lastGC")
+		_, iv := isFieldLoad(y, "ValidReplayer", "GCInterval")
+		return l && iv && now != nil && carriesOnly(sub.Call.Args[0], now)
+	}
+	dueFact := factBool(isDue, true)
+	haveDue := false
+	eachInstrDeep(fn, func(in ssa.Instruction) {
+		if v, ok := in.(ssa.Value); ok && isDue(v) {
+			haveDue = true
 		}
 	})
 	n := 0
@@ -2192,7 +2225,7 @@ func r18_6(c *Ctx) {
 			c.bad(name, P.ipos(st), "lastGC is written outside ValidReplayer.Put")
 			continue
 		}
-		valOK := now != nil && st.Val == ssa.Value(now)
+		valOK := now != nil && carriesOnly(st.Val, now)
 		isZero := guardedByBool(fn, st.Block(), func(v ssa.Value) bool {
 			call, ok := isTimeCall(v, "IsZero")
 			if !ok {
@@ -2201,38 +2234,16 @@ func r18_6(c *Ctx) {
 			_, ok = isFieldLoad(call.Call.Args[0], "ValidReplayer", "lastGC")
 			return ok
 		}, true)
-		afterGC := gcCall != nil && should != nil && (instrDominates(gcCall, st) || instrDominates(st, gcCall)) &&
-			guardedByBool(fn, st.Block(), func(v ssa.Value) bool { return v == ssa.Value(should) }, true) &&
-			guardedByBool(fn, gcCall.Block(), func(v ssa.Value) bool { return v == ssa.Value(should) }, true)
+		afterGC := gcCall != nil && haveDue && (instrDominates(gcCall, st) || instrDominates(st, gcCall)) &&
+			factGuards(fn, st.Block(), dueFact) && factGuards(fn, gcCall.Block(), dueFact)
 		c.check(valOK && (isZero || afterGC), name, P.ipos(st), "lastGC = now only when it was zero or right after a collection", "lastGC is advanced on a path where no collection ran (and it was not the initialisation): Puts arriving more often than GCInterval postpone collection forever, expired messages stay reachable")
 	}
 	if n == 0 {
 		c.bad(fnLabel(fn)+":write(lastGC)", P.pos(fn.Pos()), "lastGC is never advanced: every Put after GCInterval runs a collection")
 	}
-	// doGC under shouldGC
-	c.check(gcCall != nil && should != nil && guardedByBool(fn, gcCall.Block(), func(v ssa.Value) bool { return v == ssa.Value(should) }, true), fnLabel(fn)+":gc-when-due", P.pos(fn.Pos()), "Put collects when shouldGC says it is due", "Put does not run doGC under shouldGC")
-	// shouldGC: GCInterval > 0 && now.Sub(lastGC) >= GCInterval
-	if sg := P.Fn("(*ValidReplayer).shouldGC"); sg != nil {
-		cmp := false
-		eachInstr(sg, func(in ssa.Instruction) {
-			b, ok := in.(*ssa.BinOp)
-			if !ok || (b.Op != token.GEQ && b.Op != token.GTR) {
-				return
-			}
-			sub, ok := isTimeCall(b.X, "Sub")
-			if !ok {
-				return
-			}
-			_, l := isFieldLoad(sub.Call.Args[1], "ValidReplayer", "lastGC")
-			_, iv := isFieldLoad(b.Y, "ValidReplayer", "GCInterval")
-			if l && iv && sub.Call.Args[0] == ssa.Value(sg.Params[1]) {
-				cmp = true
-			}
-		})
-		c.check(cmp, fnLabel(sg)+":due-test", P.pos(sg.Pos()), "a collection is due when now - lastGC >= GCInterval", "shouldGC does not compare now - lastGC with GCInterval")
-	} else {
-		c.anchor("(*ValidReplayer).shouldGC")
-	}
+	// doGC under the due test
+	c.check(gcCall != nil && haveDue && factGuards(fn, gcCall.Block(), dueFact), fnLabel(fn)+":gc-when-due", P.pos(fn.Pos()), "Put collects when now - lastGC >= GCInterval says it is due", "Put does not run doGC under the due test (now - lastGC >= GCInterval)")
+	c.check(haveDue, fnLabel(fn)+":due-test", P.pos(fn.Pos()), "a collection is due when now - lastGC >= GCInterval", "Put does not compare now - lastGC with GCInterval")
 }
 
 // R18.7: enqueue moves the read index (head) only when it has just overwritten the
@@ -2270,25 +2281,41 @@ func r18_7(c *Ctx) {
 		_, ok = isFieldLoad(call.Call.Args[0], "queue", "buf")
 		return ok
 	}
-	full := map[cfgEdge]bool{}
-	for _, ifi := range ifsIn(fn) {
-		cnd := decodeIf(ifi)
-		if cnd.Y == nil {
-			continue
+	// "the ring is full": count == len(buf) (or >=), as a fact — established by a branch on the
+	// comparison itself or on a materialised conjunction that contains it (`full := a && count == len(buf)`)
+	isFullCmp := func(v ssa.Value) bool {
+		b, ok := v.(*ssa.BinOp)
+		if !ok {
+			return false
 		}
-		_, xc := isFieldLoad(cnd.X, "queue", "count")
-		_, yc := isFieldLoad(cnd.Y, "queue", "count")
-		if (xc && isLenBuf(cnd.Y)) || (yc && isLenBuf(cnd.X)) {
-			switch cnd.Op {
-			case token.EQL, token.GEQ:
-				full[cfgEdge{ifi.Block(), cnd.succWhen(true)}] = true
-			case token.NEQ, token.LSS:
-				full[cfgEdge{ifi.Block(), cnd.succWhen(false)}] = true
-			}
+		x, y, op := b.X, b.Y, b.Op
+		if isLenBuf(x) {
+			x, y, op = y, x, flipOp(op)
 		}
+		_, xc := isFieldLoad(x, "queue", "count")
+		return xc && isLenBuf(y) && (op == token.EQL || op == token.GEQ)
 	}
+	isNotFullCmp := func(v ssa.Value) bool {
+		b, ok := v.(*ssa.BinOp)
+		if !ok {
+			return false
+		}
+		x, y, op := b.X, b.Y, b.Op
+		if isLenBuf(x) {
+			x, y, op = y, x, flipOp(op)
+		}
+		_, xc := isFieldLoad(x, "queue", "count")
+		return xc && isLenBuf(y) && (op == token.NEQ || op == token.LSS)
+	}
+	fullFacts := []fact{factBool(isFullCmp, true), factBool(isNotFullCmp, false)}
 	name := fnLabel(fn) + ":head-moves"
-	if len(full) == 0 {
+	have := false
+	eachInstr(fn, func(in ssa.Instruction) {
+		if v, ok := in.(ssa.Value); ok && (isFullCmp(v) || isNotFullCmp(v)) {
+			have = true
+		}
+	})
+	if !have {
 		c.bad(name, P.pos(fn.Pos()), "enqueue never tests whether the ring is full (count == len(buf))")
 		return
 	}
@@ -2308,8 +2335,8 @@ func r18_7(c *Ctx) {
 			stores[s] = r
 		}
 		passed := false
-		for e := range full {
-			if st.Edges[e] {
+		for _, ff := range fullFacts {
+			if pathEstablishes(st, ff) {
 				passed = true
 			}
 		}
